@@ -226,6 +226,22 @@ def run(ctx):
                                    "case": m, "impl": m.get("real"), "model": m.get("gomodel")})
             for i in range(ncmp):
                 ctx.add_case("real-go %s %d %d %d" % (nm, cs, ctx.seed, i), False)
+    # second Go-side safety net: the corpus schedules of C08/C14/C16 on the real archetypes; on every observed pre-state the
+    # regenerated Go model must predict the attempt AND run o symex_go must agree with the direct interpreter
+    if not ctx.replay:
+        import c02_corpus as CC
+        conly = ("proxy", "replicatedkv", "loadbalancer") if ctx.tier == "quick" else None
+        if only:
+            conly = tuple(x for x in (conly or [s_["name"] for s_ in systems]) if x in only.split(","))
+        try:
+            ctot, cbreaks = CC.run(systems, infos, log, only=conly)
+        except Exception as ex:      # files and helpers of other properties: never an error of C02
+            ctot, cbreaks = {"error": "corpus schedules not usable: %r" % (ex,)}, []
+            ctx.notes.append("corpus schedules of C08/C14/C16: %r" % (ex,))
+        ctx.extra["corpus_schedules_real_go_and_direct"] = ctot
+        ctx.breaks.extend(cbreaks)
+        for i in range(ctot.get("attempts", 0) + ctot.get("direct_agree", 0)):
+            ctx.add_case("corpus-sched %d %d" % (ctx.seed, i), False)
     # run o symex_go against the direct environment-passing interpreter of coq/C02/Direct.v (dtree_sound_go is validated, not proved)
     if not ctx.replay:
         cand = [(s_, i) for s_, i in zip(systems, infos) if not i["errors"] and any("godef" in l for l in i["labels"])]
